@@ -10,6 +10,12 @@
 (*     {"k":"res","t":thread,"c":{the same call}}                              *)
 (*     {"k":"End","obj":"buf"|"val"}   producers joined, final consume()/update() done *)
 (*     {"k":"Reset"}                   next execution, fresh object            *)
+(* Threads 9..12 are READERS: they only call size() / empty(), concurrently     *)
+(* with each other, with the consumer's polls and with producers that throttle  *)
+(* themselves with size().  Consecutive calls of one thread to one accessor     *)
+(* that returned the same result may be ONE record (op "sizes" / "empties",     *)
+(* the result and the number "cnt" of calls) whose window spans all of them     *)
+(* and which is explained by ONE observer step (BSizeRun_ / BEmptyRun_).        *)
 (* A burst of n calls of one producer during which the consumer was held       *)
 (* between two calls by the driver is ONE record (op "bpush" / "burst", first   *)
 (* value and n) and takes effect as ONE macro action of the contract.           *)
@@ -37,7 +43,8 @@ tvars == <<pend, asg, cur, last, l, at, lin, start>>
 TraceLines == ndJsonDeserialize(IOEnv.TRACE)
 N == Len(TraceLines)
 Line == TraceLines[l]
-TThreads == 0..8                                  \* 0: the consumer, 1..8: producers
+Readers  == 9..12                                 \* threads that only ever call size() / empty() (observers)
+TThreads == 0..12                                 \* 0: the consumer, 1..8: producers, 9..12: readers
 
 Mark(x) == IF x > TLCGet(1) THEN TLCSet(1, x) ELSE TRUE
 
@@ -58,8 +65,27 @@ BatchOf(c) == IF "runs" \in DOMAIN c THEN ExpandRuns(c.runs) ELSE c.batch
 \* line after t's invocation is its own response, so nothing at all happened inside its window.  The lines
 \* up to that response are a complete execution (it is what really happened up to then) whose producers
 \* have stopped and whose consumer has made one more call: the End clause applies (BConsumeQ_, VUpdateQ_).
-Quiescent(t) == /\ \A q \in TThreads \ {0} : at[q] = 0
-                /\ at[t] < N /\ TraceLines[at[t] + 1].k = "res" /\ TraceLines[at[t] + 1].t = t
+\* Calls of reader threads inside the window do not count: a reader calls size() / empty() only (ReaderOK), which change
+\* nothing - as far as the mutators go the window is still empty.
+\* (looked for among the next 64 lines only - a call whose response is farther away is judged as not quiescent, the weaker
+\* clause; no recursion over the lines: executions of code that answers erratically have thousands of reader lines)
+IsReaderLine(i) == TraceLines[i].k \in {"inv", "res"} /\ TraceLines[i].t \in Readers
+Quiescent(t) == /\ \A q \in Producers : at[q] = 0
+                /\ \E j \in (at[t] + 1)..(IF N < at[t] + 64 THEN N ELSE at[t] + 64) :
+                      /\ TraceLines[j].k = "res" /\ TraceLines[j].t = t
+                      /\ \A i \in (at[t] + 1)..(j - 1) : IsReaderLine(i)
+
+\* observers: any thread may call size() / empty(); a reader thread calls nothing else
+Observing == {"size", "sizes", "empty", "empties"}
+ReaderOK(t, c) == t \in Readers => c.op \in Observing
+
+\* the poll loop (BConsumePolled_): the previous call of the thread that now calls consume() - the single consumer -
+\* returned empty() = FALSE / size() > 0
+PolledSome(t) ==
+  LET S == {j \in start..(at[t] - 1) : TraceLines[j].k = "res" /\ TraceLines[j].t = t}
+  IN S # {} /\ LET c == TraceLines[CHOOSE j \in S : \A i \in S : i <= j].c
+               IN \/ c.op \in {"empty", "empties"} /\ ~c.b
+                  \/ c.op \in {"size", "sizes"} /\ c.n > 0
 
 \* Search hint: the orchestrator copies into an update() record the value returned by the get() the same
 \* thread made next ("ng").  Only the consumer changes `cur`, so a choice of cur' that disagrees with that
@@ -67,13 +93,21 @@ Quiescent(t) == /\ \A q \in TThreads \ {0} : at[q] = 0
 \* assignments from spawning 2^16 branches.  Never changes the verdict.
 Hint(c) == "ng" \in DOMAIN c => ValAt(cur') = c.ng
 
+\* (a state predicate used as the test of an IF is evaluated iteratively; as a conjunct of an action TLC would
+\* unfold its quantifiers recursively, one stack frame per recorded call)
+Holds(b) == IF b THEN TRUE ELSE FALSE
+
 \* the contract step of a recorded call c made by thread t, with the results as observed
 Effect(t, c) ==
+  ReaderOK(t, c) /\
   CASE c.op = "push"    -> t = c.v[1] /\ BPush_(t, c.v)
     [] c.op = "pushx"   -> t = c.v[1] /\ (IF c.threw THEN BPushFailed_(t, c.v) ELSE BPush_(t, c.v))
     [] c.op = "assignx" -> IF c.threw THEN VAssignFailed_(c.v) ELSE VAssign_(c.v)
     [] c.op = "bpush"   -> t = c.p /\ BBurst_(t, ElemRun(c.p, c.first, c.n))
-    [] c.op = "consume" -> IF Quiescent(t) THEN BConsumeQ_(BatchOf(c)) ELSE BConsume_(BatchOf(c))
+    [] c.op = "consume" -> /\ IF Quiescent(t) THEN BConsumeQ_(BatchOf(c)) ELSE BConsume_(BatchOf(c))
+                           /\ Holds(PolledSome(t) => BatchOf(c) # <<>>)          \* BConsumePolled_
+    [] c.op = "sizes"   -> BSizeRun_(c.n, c.cnt)
+    [] c.op = "empties" -> BEmptyRun_(c.b, c.cnt)
     [] c.op = "size"    -> BSize_(c.n)
     [] c.op = "empty"   -> BEmpty_(c.b)
     [] c.op = "assign"  -> VAssign_(c.v)
@@ -139,10 +173,6 @@ WholeVal(i, j) ==
 \* (executions that contain a call that threw are judged by the step-wise contract only: whether such a call counts
 \* as made is left open, so the whole-execution form has no fixed set of pushed elements / assigned values)
 NoThrow(i, j) == Sel(i, j, "inv", {"pushx", "assignx"}) = <<>>
-
-\* (a state predicate used as the test of an IF is evaluated iteratively; as a conjunct of an action TLC would
-\* unfold its quantifiers recursively, one stack frame per recorded call)
-Holds(b) == IF b THEN TRUE ELSE FALSE
 
 TEnd == /\ l <= N /\ Line.k = "End"
         /\ at = Idle
